@@ -4,6 +4,7 @@ package sess
 
 import (
 	"bytes"
+	"encoding/base64"
 	"encoding/json"
 	"fmt"
 	"io"
@@ -14,6 +15,7 @@ import (
 	"sync"
 	"syscall"
 	"time"
+	"unicode/utf8"
 
 	"github.com/google/pprof/profile"
 	"github.com/google/pprof/verif/internal/drv"
@@ -109,6 +111,25 @@ func tail(s string, n int) string {
 
 const marker = "\n@@SESSION-RESULT@@"
 
+// FileText is how file contents travel in a transcript: text as it is, anything that is not
+// valid UTF-8 as "b64:" + base64 (JSON strings cannot carry arbitrary bytes).
+func FileText(b []byte) string {
+	if utf8.Valid(b) {
+		return string(b)
+	}
+	return "b64:" + base64.StdEncoding.EncodeToString(b)
+}
+
+// FileBytes undoes FileText.
+func FileBytes(s string) []byte {
+	if strings.HasPrefix(s, "b64:") {
+		if b, err := base64.StdEncoding.DecodeString(s[4:]); err == nil {
+			return b
+		}
+	}
+	return []byte(s)
+}
+
 func listFiles(dir string, seen map[string]bool) map[string]string {
 	out := map[string]string{}
 	filepath.Walk(dir, func(path string, info os.FileInfo, err error) error {
@@ -124,7 +145,7 @@ func listFiles(dir string, seen map[string]bool) map[string]string {
 			b = b[:1<<16]
 		}
 		rel, _ := filepath.Rel(dir, path)
-		out[rel] = string(b)
+		out[rel] = FileText(b)
 		return nil
 	})
 	return out
@@ -191,7 +212,7 @@ func Child(args []string) int {
 			uiOutPos, uiErrPos = len(ui.Out), len(ui.Errs)
 			seg.Files = listFiles(spec.Dir, seenFiles)
 			for _, name := range w.Order[filePos:] {
-				seg.Files["writer:"+name] = w.Files[name].String()
+				seg.Files["writer:"+name] = FileText(w.Files[name].Bytes())
 			}
 			filePos = len(w.Order)
 			if fp := mon.Fingerprint(p); fp != fp0 && res.ProfileUnchanged {
